@@ -51,8 +51,84 @@ def main() -> int:
     assert g.pred[g.exit.id] and g.pred[g.rexit.id]
     # fold
     assert q.truth_set(ast.parse("c in (204, 304) or 100 <= c < 200", mode="eval").body, "c", range(100, 600)) == set(range(100, 200)) | {204, 304}
-    print("vt selftest ok: %d cfg nodes" % len(g.nodes))
+    n_extra = extra()
+    print("vt selftest ok: %d cfg nodes, %d further engine assertions" % (len(g.nodes), n_extra))
     return 0
+
+
+SRC2 = '''
+async def g(self, fut):
+    if self.closed:
+        return
+    await self.flush()
+    self.write(b"x")
+
+def h(self, fut):
+    if not fut.done():
+        fut.set_result(1)
+
+def h_bad(self, fut):
+    if not fut.done():
+        self.log()
+    fut.set_result(1)
+
+def k(self):
+    if self.state is None:
+        return
+    gen_log.info(self.other)
+    self.state.go()
+
+def k_killed(self):
+    if self.state is None:
+        return
+    self.reset(self.state)
+    self.state.go()
+'''
+
+
+def extra() -> int:
+    """Both-way examples for the shared engines: each rule shape must hold on the
+    positive example and must NOT hold on the negative twin."""
+    from vt import rx as R
+    n = 0
+    mod = ast.parse(SRC2)
+    fns = {f.name: f for f in mod.body}
+
+    def facts_at_call(fname, text):
+        cg = C.build(fns[fname])
+        fa = C.must_facts(cg)
+        node = [x for x in cg.stmt_nodes() if x.kind == "stmt" and text in q.unparse(x.ast)][-1]
+        return fa[node.id]
+
+    # an attribute fact does not survive an await (another coroutine may change it)
+    assert not C.holds(facts_at_call("g", "self.write"), "self.closed", False); n += 1
+    # guard dominance: positive / negative twin
+    assert C.holds(facts_at_call("h", "set_result"), "fut.done()", False); n += 1
+    assert not C.holds(facts_at_call("h_bad", "set_result"), "fut.done()", False); n += 1
+    # a fact about self.state survives a call on an unrelated object, dies when the path is passed away
+    # (a method call on self itself also kills it: the callee may rebind the attribute)
+    assert C.holds(facts_at_call("k", "self.state.go"), "self.state is None", False); n += 1
+    assert not C.holds(facts_at_call("k_killed", "self.state.go"), "self.state is None", False); n += 1
+    # canonical polarity: `x is not None` true == `x is None` false
+    e1 = ast.parse("x is not None", mode="eval").body
+    e2 = ast.parse("x is None", mode="eval").body
+    assert C.canon_fact(e1, True) == C.canon_fact(e2, False); n += 1
+    # regex automata: equivalence is about the language, not the text
+    a = R.Rx.from_pattern(r"[0-9]+"); b = R.Rx.from_pattern(r"[0-9][0-9]*"); c = R.Rx.from_pattern(r"[0-9]*")
+    assert a.equivalent(b); n += 1
+    assert not a.equivalent(c) and a.subset_of(c) and not c.subset_of(a); n += 1
+    assert c.witness_not_in(a) == ""; n += 1
+    assert R.Rx.from_pattern(r"[^\r\n]*").excludes_symbols([13, 10]); n += 1
+    assert not R.Rx.from_pattern(r"[^\r]*").excludes_symbols([13, 10]); n += 1
+    assert R.Rx.from_pattern(rb"[0-9a-fA-F]{1,8}").max_length() == 8; n += 1
+    assert R.Rx.from_pattern(r"x+").max_length() is None; n += 1
+    # match mode: `$` admits a trailing newline, \\Z does not
+    m1 = R.Rx.from_pattern(r"[0-9]+$", mode="match"); m2 = R.Rx.from_pattern(r"[0-9]+\Z", mode="match")
+    assert m1.accepts("12\n") and not m2.accepts("12\n"); n += 1
+    # finite-domain folding of predicates
+    te = ast.parse("not (c < 200 or c in (204, 304))", mode="eval").body
+    assert q.truth_set(te, "c", range(100, 600)) == set(range(200, 600)) - {204, 304}; n += 1
+    return n
 
 
 if __name__ == "__main__":
